@@ -67,6 +67,14 @@ func checkC08(c *Ctx) {
 
 	c.c08Enforcer(pm)
 	c.c08Cap(pm)
+	// the newest message must survive its own delivery's cap eviction (decided by C11's
+	// ordering rule for AddMessage)
+	nB := c.borrow(func(c2 *Ctx) {
+		if fm := c2.fsModel(); fm != nil {
+			c2.c11Add(fm)
+		}
+	}, "C11/ORDER/add/(*file.Store).AddMessage:no-removal-in-between", "C08/CAP/newest-survives", "file store: between writing the new message's raw file and updating the index nothing can remove the mailbox directory (an eviction that empties the mailbox, e.g. cap 1, would delete the message being delivered)")
+	r.Floor("C08/CAP/newest-survives", "borrowed ordering obligations", nB, 1)
 }
 
 func (c *Ctx) c08Enforcer(pm *pairModel) {
